@@ -481,7 +481,7 @@ def run_neighbours(spec, rec, lib):
     for i in range(spec["count"]):
         d = os.path.join(spec["scratch"], "nb%d" % i)
         os.makedirs(d, exist_ok=True)
-        name = rng.choice(["4.root.json", "key_mgr.json", "doc.json", "doc", "re\u0301po.json"])
+        name = rng.choice(vlib.fs_names(["4.root.json", "key_mgr.json", "doc.json", "doc", "re\u0301po.json"]))
         ks = [gkeys.key(j) for j in rng.sample(range(8), rng.randint(1, 3))]
         gpg = rng.random() < 0.5
         v = rng.randint(1, 9)
